@@ -171,7 +171,8 @@ def c05(deep):
     for fmt in ("md", "cram"):
         for sig in ("KILL", "TERM"):
             for pos in range(3):
-                tests = [(f"kill -{sig} $$", [], "") if i == pos else (f"echo t{i}", [f"t{i}"], "") for i in range(3)]
+                # the test cases after the killed one are silent and expect nothing: had they "run" with an empty output and exit code 0 they would pass
+                tests = [(f"kill -{sig} $$", [], "") if i == pos else ((f"echo t{i}", [f"t{i}"], "") if i < pos else ("true", [], "")) for i in range(3)]
                 doc = ("a_killed.md", md(tests)) if fmt == "md" else ("a_killed.t", cram(tests))
 
                 def pred(g, pos=pos):
